@@ -22,7 +22,8 @@ IMPORTS = "From U2F Require Import Base.Prelude Geometry.Model Geometry.Cff Geom
 RULE = ("cubic-free random component DAGs (lines + quadratics with 1-3 off-curves, contours starting on or off curve, mixed glyphs, "
         "composites of composites, diamond DAGs, F2Dot14-representable matrices incl. mirrors/shear/rotation) x flattenComponents x "
         "convertCubics x both UFO libraries: exact comparison of pre-processed glyph sets and glyf tables; plus cubic fonts for "
-        "the sampled distance test. Non-trivial = font has a mixed glyph or a nested/mirrored component.")
+        "the sampled distance test. Non-trivial = font has a mixed glyph or a nested/mirrored component."
+        " The cu2qu.curve_type lib key; the conversion error measured on the unrounded pre-processor output for errors below one unit and upm 250..2048 (sampled test).")
 ASSUMPTIONS = ["IEEE doubles exact on dyadic inputs", "cu2qu passes lines and quadratic segments through unchanged"]
 
 TT_CLASSES = ["identity", "shear", "rot90", "mirror_x", "mirror_y", "point_reflect", "shrink_mirror", "general_small",
